@@ -110,6 +110,10 @@ type c15 struct {
 	sqlDB   *sqldb.BaseDB
 	sqlUses int
 	nudges  int
+	// tick operations that ran into their deadline (the registry's timers did
+	// not do what the database dump promises): after a few of them the
+	// deadline is shortened, every one is still reported as `timeout`.
+	tickTimeouts int
 
 	// per case
 	reg    *invpkg.InvoiceRegistry
@@ -653,7 +657,11 @@ func (c *c15) doTick(o *c15op) {
 	c.clk.SetTime(c.now)
 	res := "ok"
 	start := time.Now()
-	deadline := start.Add(10 * time.Second)
+	wait := 10 * time.Second
+	if c.tickTimeouts >= 3 {
+		wait = 1500 * time.Millisecond
+	}
+	deadline := start.Add(wait)
 	nextNudge := start.Add(30 * time.Millisecond)
 	for len(c.overdue()) > 0 {
 		if time.Now().After(deadline) {
@@ -685,11 +693,14 @@ func (c *c15) doTick(o *c15op) {
 			select {
 			case x := <-c.hodl:
 				got = append(got, x)
-			case <-time.After(10 * time.Second):
+			case <-time.After(wait):
 				res = "timeout"
 				want = 0
 			}
 		}
+	}
+	if res == "timeout" {
+		c.tickTimeouts++
 	}
 	c.pf("tick dt=%d => %s", o.dt, res)
 	// re-queue for observe (keeps one code path for printing).
